@@ -226,7 +226,7 @@ impl Prop for C15 {
         "case = ((piece family, operator) uniform over the 28 combinations whose trait bounds are satisfiable: {Segment*s, Segment*=s, (&mut Segment)*=s, Segment::translate, Piecewise*s, Piecewise*=s, -Piecewise, Piecewise::translate} x {PolyK, Log<PolyK>, IntOfLog<PolyK>, IntOfLogPoly4} minus MulAssign on IntOfLogPoly4 and Neg on Log; degree 0..=8; 0..=12 breakpoints from the lattice generator (Segment-level operators are applied to every segment of the list); pool of pairwise distinct finite numbers, piece j = pool rotated by 3j; scalar as in C14). Oracle: number of pieces, order and every end bit-identical; piece i of the result has exactly the numbers of the same operator applied to piece i alone (C14 pins what that is). Non-trivial: >=2 pieces.".into()
     }
     fn cases(&self, tier: Tier) -> u64 {
-        tier.pick(300_000, 6_000_000)
+        tier.pick(1_000_000, 10_000_000)
     }
     fn strategy(&self, _tier: Tier) -> BoxedStrategy<Case> {
         let inst = instances();
